@@ -43,6 +43,10 @@ def check(run):
         del os.environ["VERIF_LIVE_RCPT"]
     gc, ec = irc_run.run_go(exe, ops, tag="c03-c")
     ll, lerr = irc_run.run_lean(ops, tag="c03")
+    # the model reports at every cut whether the executable hypotheses of C03_state (canonB, invB) hold there
+    hyp_bad = [l for l in ll if l.startswith("ok hyp ")]
+    ncuts_model = sum(1 for l in ll if l == "ok" or l.startswith("ok hyp "))
+    ll = ["ok" if l.startswith("ok hyp ") else l for l in ll]
     res = irc_run.compare(hs, gc, ll)
     mism = [(h, r) for h, r in zip(hs, res) if r["mismatch"]]
     corr_ok = not mism and not ec and not lerr
@@ -51,6 +55,7 @@ def check(run):
         j, op, g, l = mism[0][1]["mismatch"]
         d1 = "history op %d %r: %s" % (j, irc_check.txt(op)[:60] or op, irc_run.explain_diff(g, l))
     run.obligation("correspondence: real Marshal/Unmarshal + continuation == Lean saveLoad model (%d ops compared, %d cuts)" % (sum(r["compared"] for r in res), ops.count("M")), corr_ok, ec or lerr or d1)
+    run.obligation("hypotheses of C03_state/C03_inv (Inv, Canon: executable forms) hold at every cut reached in the model (%d cuts)" % ncuts_model, not hyp_bad, "; ".join(hyp_bad[:3]))
     # the property itself, on the real code: the run with cuts and the run without must be indistinguishable
     bad = None
     pos = 0
